@@ -254,6 +254,10 @@ def deductive(res, agg):
                             key = "seed" if "dask" in cl["callee"] else "random_state"
                             agg.vc(fn, "randomised back end receives the instance's random_state",
                                    struct_vc(cl["kwargs"].get(key) is seed, f"{cl['callee']} got {cl['kwargs'].get(key)!r}"), cfg)
+                            if "dask" in cl["callee"]:
+                                npi = cl["kwargs"].get("n_power_iter")
+                                agg.vc(fn, "compressed (dask) back end runs with power iterations (>= 1) unless the caller chose otherwise",
+                                       struct_vc(isinstance(npi, int) and npi >= 1, f"n_power_iter={npi!r}"), cfg)
                     agg.vc(fn, "exactly one back-end call", struct_vc(len(backend_calls(pth)) == 1, str(len(backend_calls(pth)))), cfg)
             if nret == 0:
                 agg.vc(fn, "has-returning-path", struct_vc(False, "vacuity guard"), cfg)
@@ -293,6 +297,10 @@ def deductive(res, agg):
                             key = "seed" if "dask" in cl["callee"] else "random_state"
                             agg.vc(fn, "randomised back end receives the instance's random_state",
                                    struct_vc(cl["kwargs"].get(key) is seed, f"{cl['callee']} got {cl['kwargs'].get(key)!r}"), cfg)
+                            if "dask" in cl["callee"]:
+                                npi = cl["kwargs"].get("n_power_iter")
+                                agg.vc(fn, "compressed (dask) back end runs with power iterations (>= 1) unless the caller chose otherwise; without them it does not reach the exact solver's leading values",
+                                       struct_vc(isinstance(npi, int) and npi >= 1, f"n_power_iter={npi!r}"), cfg)
                             want = {"sklearn.randomized_svd": "n_components", "scipy.sparse.linalg.svds": "k", "dask.svd_compressed": "k"}[cl["callee"]]
                             kk = cl["kwargs"].get(want)
                             agg.vc(fn, "randomised back end asked for n_modes_precompute modes",
@@ -329,11 +337,15 @@ def deductive_forwarding(res, agg):
     class _Stop(Exception):
         pass
 
-    for fn, mod, name, build in (
+    for fn, mod, name, build, cfgk in (
             ("SVD.fit_transform", svdmod, "_SVD", lambda: svdmod.SVD(n_modes=2, solver_kwargs={"tok": tok}, random_state=11, solver="full").fit_transform(
-                real.da2(np.zeros((4, 3)), "sample", "feature"))),
+                real.da2(np.zeros((4, 3)), "sample", "feature")), ""),
             ("PCA.fit", pcamod, "SVD", lambda: pcamod.PCA(n_modes=2, solver_kwargs={"tok": tok}, random_state=11).fit(
-                real.da2(np.zeros((4, 3)), "sample", "feature")))):
+                real.da2(np.zeros((4, 3)), "sample", "feature")), ""),
+            ("SVD.fit_transform", svdmod, "_SVD", lambda: svdmod.SVD(n_modes=2, random_state=11, solver="full").fit_transform(
+                real.da2(np.zeros((4, 3)), "sample", "feature")), "no solver_kwargs"),
+            ("PCA.fit", pcamod, "SVD", lambda: pcamod.PCA(n_modes=2, random_state=11).fit(
+                real.da2(np.zeros((4, 3)), "sample", "feature")), "no solver_kwargs")):
         rec.clear()
         old = getattr(mod, name)
         setattr(mod, name, RecSVD)
@@ -349,9 +361,12 @@ def deductive_forwarding(res, agg):
             setattr(mod, name, old)
         kw = rec.get("kw", {})
         got = kw.get("solver_kwargs")
-        agg.vc(fn, "solver_kwargs are handed on as the `solver_kwargs` argument (not spread into the constructor)",
-               struct_vc(isinstance(got, dict) and got.get("tok") is tok and "tok" not in kw, f"constructor keywords {sorted(kw)} {outcome}"), "")
-        agg.vc(fn, "random_state handed on", struct_vc(kw.get("random_state") == 11, f"{kw.get('random_state')!r} {outcome}"), "")
+        if cfgk:
+            agg.vc(fn, "without solver options the back end gets none", struct_vc(not got, f"solver_kwargs={got!r} {outcome}"), cfgk)
+        else:
+            agg.vc(fn, "solver_kwargs are handed on as the `solver_kwargs` argument (not spread into the constructor)",
+                   struct_vc(isinstance(got, dict) and got.get("tok") is tok and "tok" not in kw, f"constructor keywords {sorted(kw)} {outcome}"), "")
+        agg.vc(fn, "random_state handed on", struct_vc(kw.get("random_state") == 11, f"{kw.get('random_state')!r} {outcome}"), cfgk)
 
 
 class _Col:
@@ -454,6 +469,11 @@ def eval_case(c):
         sref = np.linalg.svd(X, compute_uv=False)
         frac = np.cumsum(sref ** 2 / (nn - 1)) / (np.sum(np.abs(X) ** 2) / (nn - 1))
         kpre = max(1, int(min(nn, pp) * c["irr"]))
+        if c.get("near") is not None:
+            # requested fraction a hair (2e-6) above what the first near+1 modes explain: one more mode is needed
+            c = dict(c, f=float(frac[c["near"]] + 2e-6))
+            if c["f"] > 1 or frac[c["near"] + 1] - c["f"] < 1e-6:
+                return True, "spectrum leaves no room above the near-threshold (skipped)"
         hits = np.nonzero(frac[:kpre] >= c["f"] * (1 - 1e-12))[0]
         want = int(hits[0]) + 1 if len(hits) else kpre
         if len(hits) and abs(frac[hits[0]] - c["f"]) < 1e-9 or (hits.size and hits[0] > 0 and abs(frac[hits[0] - 1] - c["f"]) < 1e-9):
@@ -570,6 +590,11 @@ def bounded_cases(tier, seed):
                         if level == "SVD" and cplx:
                             continue
                         cases.append(dict(kind="threshold", spec=spec, f=f, irr=irr, level=level, n=30, p=12, cplx=cplx))
+    for spec in ("geometric", "random"):
+        for near in (0, 2):
+            for level in ("Decomposer", "SVD", "model"):
+                cases.append(dict(kind="threshold", spec=spec, f=None, near=near, irr=1.0 if level != "model" else 0.3, level=level, n=30, p=12,
+                                  cplx=False, keep=spec == "geometric"))
     for dk in (False, True):
         for (nn, pp, k) in ((80, 30, 3), (40, 60, 5)):
             cases.append(dict(kind="agree", n=nn, p=pp, k=k, dask=dk, keep=True))
